@@ -29,6 +29,127 @@ class Tag(A.BasicTransform):
         return {n: (lambda v, _c=(NAMES.index(n) + 1) * 1000, **p: v + _c) for n in self._names}
 
 
+class TagDual(A.DualTransform):
+    """a DualTransform whose six hooks add distinct constants: which hook handled a value can be read off the result"""
+
+    def __init__(self):
+        super().__init__(always_apply=True, p=1.0)
+
+    def apply(self, img, **params):
+        return img + 1000
+
+    def apply_to_mask(self, img, **params):
+        return img + 2000
+
+    def apply_to_bbox(self, bbox, **params):
+        return (bbox[0] + 3000,) + tuple(bbox[1:])
+
+    def apply_to_keypoint(self, keypoint, **params):
+        return (keypoint[0] + 4000,) + tuple(keypoint[1:])
+
+    def apply_to_dicom(self, dicom, **params):
+        return {'v': dicom['v'] + 5000}
+
+    def get_transform_init_args_names(self):
+        return ()
+
+
+def run_dual(seed, n):
+    """DualTransform target table and list-valued targets vs Dispatch.dual_apply"""
+    rng = random.Random(seed * 40503 % (2 ** 31) + 77)
+    cases, kinds = [], {}
+    for i in range(n):
+        t = TagDual()
+        additional = {}
+        for j in range(rng.randint(0, 3)):
+            additional['extra%d' % j] = rng.choice(['image', 'mask', 'masks', 'bboxes', 'keypoints'])
+        t.add_targets(additional)
+        keys = ['image'] + rng.sample(['mask', 'masks', 'bboxes', 'keypoints', 'dicom'] + list(additional), rng.randint(0, 5))
+        rng.shuffle(keys)
+        kwargs, model_kw = {}, []
+        for k in keys:
+            tk = additional.get(k, k)
+            if k != 'image' and rng.random() < 0.12:
+                kwargs[k] = None
+                model_kw.append((k, 'None'))
+                continue
+            if tk in ('image', 'mask'):
+                z = rng.randint(0, 99)
+                kwargs[k] = np.full((1, 1, 1), z, np.int64)
+                model_kw.append((k, '(Some (VArr (%d)%%Z))' % z))
+            elif tk == 'dicom':
+                z = rng.randint(0, 99)
+                kwargs[k] = {'v': z}
+                model_kw.append((k, '(Some (VArr (%d)%%Z))' % z))
+            elif tk == 'masks':
+                zs = [rng.randint(0, 99) for _ in range(rng.randint(0, 4))]
+                kwargs[k] = [np.full((1, 1, 1), z, np.int64) for z in zs]
+                model_kw.append((k, '(Some (VList [%s]))' % '; '.join('(%d)%%Z' % z for z in zs)))
+            else:
+                glen = 6 if tk == 'bboxes' else 5
+                anns = [(rng.randint(0, 99), rng.randint(100, 199)) for _ in range(rng.randint(0, 4))]
+                kwargs[k] = [(g,) + (0,) * (glen - 1) + (tl,) for g, tl in anns]
+                model_kw.append((k, '(Some (VAnn [%s]))' % '; '.join('((%d)%%Z, (%d)%%Z)' % a for a in anns)))
+        try:
+            res = t.apply_with_params({}, **kwargs)
+            err = None
+        except Exception as e:  # noqa
+            res, err = None, type(e).__name__
+        kinds[err or 'ok'] = kinds.get(err or 'ok', 0) + 1
+        if err is not None:
+            coq, obs = 'false', err
+        else:
+            outs = []
+            for k, v in res.items():
+                tk = additional.get(k, k)
+                if v is None:
+                    outs.append((k, 'None'))
+                elif isinstance(v, np.ndarray):
+                    outs.append((k, '(Some (VArr (%d)%%Z))' % int(v.ravel()[0])))
+                elif isinstance(v, dict):
+                    outs.append((k, '(Some (VArr (%d)%%Z))' % int(v['v'])))
+                elif tk == 'masks':
+                    outs.append((k, '(Some (VList [%s]))' % '; '.join('(%d)%%Z' % int(m.ravel()[0]) for m in v)))
+                else:
+                    outs.append((k, '(Some (VAnn [%s]))' % '; '.join('((%d)%%Z, (%d)%%Z)' % (int(a[0]), int(a[-1])) for a in v)))
+            addl = '[' + '; '.join('("%s"%%string, "%s"%%string)' % kv for kv in additional.items()) + ']'
+            kw = '[' + '; '.join('("%s"%%string, %s)' % kv for kv in model_kw) + ']'
+            exp = '[' + '; '.join('("%s"%%string, %s)' % kv for kv in outs) + ']'
+            coq = 'dkw_eqb (dual_apply (Z.add 1000) (Z.add 2000) (Z.add 3000) (Z.add 4000) (Z.add 5000) %s %s) %s' % (addl, kw, exp)
+            obs = [k for k, _ in outs]
+        cases.append({'additional': additional, 'keys': list(kwargs), 'observed': obs, 'coq': coq})
+    cdir = os.path.join(VERIF, 'coq', 'cases')
+    os.makedirs(cdir, exist_ok=True)
+    path = os.path.join(cdir, 'dpd_%d.v' % seed)
+    with open(path, 'w') as f:
+        f.write('From Coq Require Import ZArith List Bool String.\nImport ListNotations.\nFrom DV.model Require Import Dispatch FrameworkCheck.\n'
+                'Fixpoint zl_eqb (a b : list Z) : bool := match a, b with [], [] => true | x :: a\', y :: b\' => Z.eqb x y && zl_eqb a\' b\' | _, _ => false end.\n'
+                'Fixpoint al_eqb (a b : list (Z * Z)) : bool := match a, b with [], [] => true | (x, s) :: a\', (y, t) :: b\' => Z.eqb x y && Z.eqb s t && al_eqb a\' b\' | _, _ => false end.\n'
+                'Definition dv_eqb (a b : dval) : bool := match a, b with VArr x, VArr y => Z.eqb x y | VList x, VList y => zl_eqb x y | VAnn x, VAnn y => al_eqb x y | _, _ => false end.\n'
+                'Definition odv_eqb (a b : option dval) : bool := match a, b with Some x, Some y => dv_eqb x y | None, None => true | _, _ => false end.\n'
+                'Fixpoint dkw_eqb (a b : list (string * option dval)) : bool := match a, b with [], [] => true '
+                '| (k, v) :: a\', (k\', v\') :: b\' => String.eqb k k\' && odv_eqb v v\' && dkw_eqb a\' b\' | _, _ => false end.\n')
+        f.write('Definition cases : list bool := [\n' + ';\n'.join(' ' + c['coq'] for c in cases) + '].\n')
+        f.write('Eval vm_compute in (bad_idx 0 cases).\n')
+    p = subprocess.run(['timeout', '600', 'coqc', '-Q', 'lib', 'DV.lib', '-Q', 'model', 'DV.model', path],
+                       cwd=os.path.join(VERIF, 'coq'), stdout=subprocess.PIPE, stderr=subprocess.STDOUT, text=True)
+    m_ = re.search(r'=\s*\[(.*?)\]', p.stdout, re.S)
+    errors, bad = [], []
+    if p.returncode != 0 or m_ is None:
+        errors.append(p.stdout[-1500:])
+    else:
+        bad = [int(x) for x in re.findall(r'\d+', m_.group(1))]
+    for ext in ('.vo', '.vok', '.vos', '.glob'):
+        try:
+            os.remove(path[:-2] + ext)
+        except OSError:
+            pass
+    js = lambda c: {k_: v for k_, v in c.items() if k_ != 'coq'}
+    return {'cases': len(cases), 'distinct_cases': len({c['coq'] for c in cases}), 'result_kinds': kinds,
+            'n_disagreements': len(bad), 'disagreements': [js(cases[i]) for i in bad[:10]], 'coq_errors': errors,
+            'missing_functions': [], 'samples': [js(c) for c in cases[:2]]}
+
+
 def run(seed, n):
     rng = random.Random(seed * 613651349 % (2 ** 31) + 12)
     cases, kinds = [], {}
@@ -91,4 +212,5 @@ def run(seed, n):
 
 if __name__ == '__main__':
     import json
-    print(json.dumps(run(int(sys.argv[1]), int(sys.argv[2])), indent=1, default=str)[:3000])
+    print(json.dumps(run(int(sys.argv[1]), int(sys.argv[2])), indent=1, default=str)[:1500])
+    print(json.dumps(run_dual(int(sys.argv[1]), int(sys.argv[2])), indent=1, default=str)[:3000])
